@@ -127,7 +127,7 @@ fn run_history(ctx: &mut Ctx, ops: &[Op], probe: bool) -> bool {
 fn run(ctx: &mut Ctx) {
     // phase 0: bounded exhaustive
     let alpha = alphabet();
-    let depth = ctx.tier.pick(4, 5) as u32;
+    let depth = ctx.tier.pick_exact(4, 5) as u32;
     let n = alpha.len() as u64;
     let mut total = 0u64; for d in 0..=depth { total += n.pow(d); }
     let range = ctx.my_slice(total);
@@ -168,7 +168,7 @@ fn run(ctx: &mut Ctx) {
 
 fn guard(m: &Merged, t: Tier) -> Vec<String> {
     let mut out = vec![];
-    for d in 0..=t.pick(4, 5) { need(m, &mut out, &format!("exhaustive.depth-{d}"), 1); }
+    for d in 0..=t.pick_exact(4, 5) { need(m, &mut out, &format!("exhaustive.depth-{d}"), 1); }
     for o in ["Add", "Remove", "SetKbd", "SetDisp", "Mmap", "Munmap", "Read", "Write"] { need(m, &mut out, &format!("ops.{o}"), 100); }
     out
 }
